@@ -36,13 +36,13 @@ CLAIMS = {
             "Bounded Kani harnesses (stated bounds); stub environment; solution_writer::create_tour, get_total_cost, Statistic sums not under contract.",
             TECH_K + " (bounded)", "§3 C03"),
     "C04": ("proof",
-            "Claimed for the primitives search steps are composed of only: the invariant (tour well-formed, job set == jobs of activities, locked jobs untouched, a removed job re-queued exactly once) is inductive "
+            "Claimed for the primitives search steps are composed of, plus one operator kernel: departure-time rescheduling (try_advance_departure_time keeps every activity of a feasible tour inside its window; bounded, U04a). Otherwise: the invariant (tour well-formed, job set == jobs of activities, locked jobs untouched, a removed job re-queued exactly once) is inductive "
             "for try_remove_job and every Tour mutator (Verus, unbounded, all histories). The ~40 operator files themselves are glue: a mutation that makes an operator bypass these primitives is not detected.",
             "Trusted: Verus/Z3; see C02. Operators (ruin/recreate/local/decompose/redistribute/infeasible/lkh search), insertion application and deep copies are NOT under contract.",
             TECH_V, "§3 C04"),
     "C05": ("model_checking",
             "Stale-flag protocol: every mutable RouteContext accessor marks the context stale (Verus, unbounded); accept_route_state clears and recomputes exactly the stale routes, runs every hook once in order; "
-            "accept_solution_state restarts until a full pass is change-free and leaves all routes fresh (bounded); schedule/statistics recomputation is independent of the previous cache content (bounded <= 2 activities)." + GLUE,
+            "accept_solution_state restarts until a full pass is change-free and leaves all routes fresh (bounded); schedule/statistics recomputation is independent of the previous cache content (bounded <= 2 activities); job-group tags of every route equal recomputation from its tour after every hand-over and insertion, whatever the stale flags (bounded, U05d)." + GLUE,
             "Bounded Kani harnesses + Verus accessors; the individual features' accept_* hooks (capacity states, groups, compatibility, tour order, reloads, limits) are NOT under contract.",
             TECH_M, "§3 C05"),
     "C06": ("proof",
@@ -53,7 +53,7 @@ CLAIMS = {
             TECH_K, "§3 C06"),
     "C07": ("model_checking",
             "Iterative::run executes exactly min(limit, k) generations for MaxGeneration(limit) and a quota that fires at an arbitrary poll index k, returns Ok with the ranked prefix (bounded limit <= 3, k <= 4); "
-            "MaxGeneration/MaxTime fire iff the limit is reached (complete), estimates in [0,1] (bounded domains), composite = any/max (<= 3)." + GLUE,
+            "MaxGeneration/MaxTime fire iff the limit is reached (complete), estimates in [0,1] (bounded domains), composite = any/max (<= 3); EvolutionSimulator::run still returns a solution when the quota fires at any poll index including before construction (bounded, U07d)." + GLUE,
             "Bounded Kani harness in a stub rosomaxa environment; quota polls inside insertion heuristic / decompose / swap-star and 'returned solution satisfies C01-C03' are inherited from those kernels, not re-proved.",
             TECH_K + " (bounded + complete guards)", "§3 C07"),
     "C08": ("model_checking",
@@ -63,12 +63,12 @@ CLAIMS = {
             TECH_K + " on a whole-crate overlay", "§3 C08"),
     "C09": ("model_checking",
             "InsertionCost: cmp == lexicographic total_cmp over zero-padded vectors, antisymmetric/reflexive, eq/partial_cmp/operators agree, add/sub element-wise with missing = 0, inverse on the exact domain "
-            "(vector lengths <= 3 enumerated, every finite f64 component); transitivity length <= 2. Goal::total_order not yet under contract.",
+            "(vector lengths <= 3 enumerated, every finite f64 component); transitivity length <= 2; dominance_order (multi-objective layers) is the Pareto dominance relation, reflexive and antisymmetric (<= 3 objectives); lemma L09: lexicographic order over padded sequences is a total preorder for any lengths (Verus). Goal::total_order itself not yet under contract.",
             "Bounded by vector length (constants enumerated); real tinyvec compiled in; goal layers (models/goal.rs) and dominance_order not under contract.",
             TECH_K + " (bounded lengths)", "§3 C09"),
     "C10": ("model_checking",
             "The shared time-window rule check_time_windows == documented rule E1103 for <= 3 (thorough: 4) windows (found defect F2, fixed); TimeWindow::intersects == inclusive overlap. "
-            "Only this helper is under contract; the other rule functions and the reader are not.",
+            "Job rules E1101/E1103/E1105/E1106/E1107: Err(code) iff the documented predicate is broken, over all four task kinds (one job, <= 2 tasks; found defect F3, fixed). The other rule functions and the reader are not under contract.",
             "Bounded Kani harnesses; RFC3339 parsing, ids, JSON reader, 37 other rule functions are NOT under contract (string code).",
             TECH_K + " (bounded)", "§3 C10"),
     "C14": ("proof",
@@ -78,8 +78,8 @@ CLAIMS = {
             TECH_V, "§3 C14"),
     "C15": ("proof",
             "First sentence: the reducer (choose_best_result, BestResultSelector::select_insertion, select_cost) returns one of its arguments with the minimal cost (Verus); lemma L15: every fold/reduce tree over any "
-            "partition and order yields a leaf with the minimal cost. Tie-breaks are left open on purpose.",
-            "Trusted: rayon applies the reducer over some partition tree, each item once; the fold step's pruning (eval_job_insertion_in_route) is undecided; thread interleavings not explored.",
+            "partition and order yields a leaf with the minimal cost. Fold step: eval_job_insertion_in_route never returns something worse than the accumulated alternative and never turns an accumulated success into a failure (Verus, verbatim body, U15b). Tie-breaks are left open on purpose.",
+            "Trusted: rayon applies the reducer over some partition tree, each item once; the fold step's pruning premise (non-negative activity-level quotes) is outside the units; thread interleavings not explored.",
             TECH_V + " + lemma", "§3 C15"),
     "C16": ("proof",
             "Time-agnostic and simple matrix providers return exactly the row-major entry of the profile's matrix, durations multiplied (same f64 operation) by profile.scale, distances unscaled, fallback exactly when absent - "
@@ -88,7 +88,7 @@ CLAIMS = {
             TECH_V, "§3 C16"),
     "C18": ("proof",
             "SlotMachine: one-step contract from any state in the invariant box (shape +1/2 and positive, rate non-decreasing positive finite, variance finite >= 0, mean within hull of old mean and reward up to one ulp, "
-            "sampler preconditions met) - complete in the thorough tier (n < 2^40), n < 2^12 in the quick tier; termination estimates in [0,1] (see C07).",
+            "sampler preconditions met) - complete in the thorough tier (n < 2^40), n < 2^12 in the quick tier; termination estimates in [0,1] (see C07); MinVariation::is_termination updates its window exactly once per generation in every phase and fires iff allowed and the window says so (bounded, U18d).",
             "Trusted: powi(2) = x*x; sampler contract; rewards <= 1e4; history link by integer lemma (planned L18); reward computation, weighted/argmax selection, MinVariation not under contract.",
             TECH_K, "§3 C18"),
     "C19": ("proof",
@@ -98,7 +98,7 @@ CLAIMS = {
             "Trusted: Kani/CBMC; Network::compact passes (3,4); network shape contains the origin; contract_graph/Network::remap glue and all training code unverified.",
             TECH_K + " (loop-free, complete)", "§3 C19"),
     "C20": ("model_checking",
-            "Distance objective: estimate_leg's quoted delta equals total_distance(after) - total_distance(before) exactly, for empty tour, first/last/open-end leg (bounded <= 1 existing job activity, integer-valued matrix).",
+            "Distance objective: estimate_leg's quoted delta equals total_distance(after) - total_distance(before) exactly, for empty tour (vehicle ending at a different location than it starts), first/last/open-end leg (bounded <= 1 existing job activity, integer-valued matrix).",
             "Bounded Kani harnesses; unassigned/tour-count/value objectives and CostObjective not under contract yet.",
             TECH_K + " (bounded)", "§3 C20"),
 }
